@@ -60,8 +60,6 @@ type mBlob struct {
 type mHandle struct {
 	b   *mBlob
 	off int64
-	// bookkeeping for evidence
-	usedWhileStale bool
 }
 
 type model struct {
